@@ -83,7 +83,43 @@ def settings_text(inputs, outputs, iterations, out_file) -> str:
 CODE = {'geophires': 'geophires_x/GEOPHIRESv3.py', 'hip_ra_x': 'hip_ra_x/hip_ra_x.py', 'hip_ra': 'hip_ra/HIP_RA.py'}
 
 
-def run_mc(kind: str, base_text: str, inputs: list, outputs: list, iterations: int, workers: int, timeout: int = 900, relative: bool = False, coarse_clock: bool = False) -> dict:
+PRELUDE_NAMES = {'geophires': ['Reservoir Depth', 'Production Flow Rate per Well', 'Injection Temperature', 'Plant Lifetime'],
+                 'hip_ra_x': ['Reservoir Area', 'Reservoir Thickness', 'Reservoir Temperature'], 'hip_ra': []}
+
+
+def prelude_base(kind: str, base_text: str, inputs: list) -> str | None:
+    """The base model with ONE stated figure that is not sampled changed (x 0.9): what an earlier study on the same file looked like."""
+    sampled = {i[0] for i in inputs}
+    lines = base_text.splitlines()
+    for name in PRELUDE_NAMES.get(kind, []):
+        if name in sampled:
+            continue
+        for k, ln in enumerate(lines):
+            parts = [x.strip() for x in ln.split(',')]
+            if len(parts) >= 2 and parts[0] == name:
+                try:
+                    x = float(parts[1])
+                except ValueError:
+                    continue
+                lines[k] = f'{name}, {int(x) + 3 if float(x).is_integer() and name == "Plant Lifetime" else repr(x * 0.9)}'
+                return '\n'.join(lines) + '\n'
+    return None
+
+
+def _die_holding_the_lock(result_file: str):
+    """A writer that takes the lock on the result file exactly as a work package does and dies before releasing it."""
+    pid = os.fork()
+    if pid == 0:
+        try:
+            from pylocker import Locker
+            Locker(filePath=result_file, lockPass='writer-that-died', mode='a').acquire_lock()
+        finally:
+            os._exit(0)
+    os.waitpid(pid, 0)
+
+
+def run_mc(kind: str, base_text: str, inputs: list, outputs: list, iterations: int, workers: int, timeout: int = 900, relative: bool = False, coarse_clock: bool = False,
+           prelude: bool = False, stale_lock: bool = False) -> dict:
     """`relative`: the result file is named by a relative MC_OUTPUT_FILE line of the settings file (no output argument); the driver resolves
     it against src/geophires_monte_carlo, where it is collected and removed again."""
     d = Path(tempfile.mkdtemp(prefix='vmc_', dir='/dev/shm' if os.path.isdir('/dev/shm') else None))
@@ -101,6 +137,17 @@ def run_mc(kind: str, base_text: str, inputs: list, outputs: list, iterations: i
                           'TMPDIR': str(d)})
     if coarse_clock:
         env['VERIF_MC_COARSE_CLOCK'] = '1'
+    if prelude:
+        # the same driver process first runs a short study on the same base FILE holding other content (one figure changed), into
+        # another result file; the file is then rewritten with the requested base and the requested study runs
+        pb = prelude_base(kind, base_text, inputs)
+        if pb is not None:
+            (d / 'prelude_base.txt').write_text(pb)
+            (d / 'prelude_settings.txt').write_text(settings_text(inputs, outputs, 2, d / 'prelude' / 'MC_Result.txt'))
+            (d / 'prelude').mkdir()
+            env['VERIF_MC_PRELUDE'] = f'{d / "prelude_base.txt"}|{d / "prelude_settings.txt"}|{d / "prelude" / "MC_Result.txt"}'
+    if stale_lock and not relative:
+        _die_holding_the_lock(str(out))       # (the lock file of a writer killed in the middle of an earlier study)
     try:
         p = subprocess.run([sys.executable, '-m', 'harness.mc_driver', str(workers), str(code), str(base), str(st)] + ([] if relative else [str(out)]),
                            cwd=str(VERIF), env=env, capture_output=True, text=True, timeout=timeout)
@@ -108,7 +155,8 @@ def run_mc(kind: str, base_text: str, inputs: list, outputs: list, iterations: i
         _sweep(relname)
         raise
     res = {'rc': p.returncode, 'stderr_tail': p.stderr[-1500:], 'kind': kind, 'workers': workers, 'iterations': iterations,
-           'inputs': inputs, 'outputs': outputs, 'base': base_text, 'events': {}, 'file': None, 'json': None, 'relative': relative}
+           'inputs': inputs, 'outputs': outputs, 'base': base_text, 'events': {}, 'file': None, 'json': None, 'relative': relative,
+           'history': 'prelude' if prelude else 'stale_lock' if stale_lock else ''}
     for f in sorted(tr.glob('*.ndjson')):
         evs = [json.loads(ln) for ln in f.read_text().splitlines() if ln.strip()]
         evs.sort(key=lambda e: e['seq'])
